@@ -378,6 +378,7 @@ fn u3_int32() {
 }
 
 //@ obligation: U3.Int32.wire
+//@ cost: heavy
 //@ props: C04 C13
 //@ fns: decode_prop_chunk[Type::Int32/VariantType::Int32] decode_prop_chunk[Type::Int32/VariantType::Int64]
 //@ kind: bounded
@@ -438,6 +439,7 @@ fn u3_float32() {
 }
 
 //@ obligation: U3.Float32.wire
+//@ cost: heavy
 //@ props: C04 C13
 //@ fns: decode_prop_chunk[Type::Float32/VariantType::Float32] decode_prop_chunk[Type::Float32/VariantType::Float64]
 //@ kind: bounded
@@ -559,6 +561,7 @@ fn u3_udim() {
 }
 
 //@ obligation: U3.UDim.wire
+//@ cost: heavy
 //@ props: C04 C13
 //@ fns: decode_prop_chunk[Type::UDim/VariantType::UDim]
 //@ kind: bounded
@@ -588,6 +591,7 @@ fn u3_udim_wire() {
 }
 
 //@ obligation: U3.UDim2
+//@ cost: heavy
 //@ props: C01 C03
 //@ fns: serialize_properties[Type::UDim2] decode_prop_chunk[Type::UDim2/VariantType::UDim2]
 //@ kind: bounded
@@ -621,6 +625,7 @@ fn u3_udim2() {
 }
 
 //@ obligation: U3.UDim2.wire
+//@ cost: heavy
 //@ props: C04 C13
 //@ fns: decode_prop_chunk[Type::UDim2/VariantType::UDim2]
 //@ kind: bounded
@@ -792,6 +797,7 @@ fn u3_axes() {
 
 // ---------------------------------------------------------------- BrickColor
 //@ obligation: U3.BrickColor
+//@ cost: heavy
 //@ props: C01 C03
 //@ fns: serialize_properties[Type::BrickColor] decode_prop_chunk[Type::BrickColor/VariantType::BrickColor]
 //@ kind: bounded
@@ -825,6 +831,7 @@ fn u3_brickcolor() {
 
 // ---------------------------------------------------------------- Color3 / Vector2 / Vector3
 //@ obligation: U3.Color3
+//@ cost: heavy
 //@ props: C01 C03
 //@ fns: serialize_properties[Type::Color3] decode_prop_chunk[Type::Color3/VariantType::Color3]
 //@ kind: bounded
@@ -856,6 +863,7 @@ fn u3_color3() {
 }
 
 //@ obligation: U3.Vector2
+//@ cost: heavy
 //@ props: C01 C03
 //@ fns: serialize_properties[Type::Vector2] decode_prop_chunk[Type::Vector2/VariantType::Vector2]
 //@ kind: bounded
@@ -886,6 +894,7 @@ fn u3_vector2() {
 }
 
 //@ obligation: U3.Vector3
+//@ cost: heavy
 //@ props: C01 C03
 //@ fns: serialize_properties[Type::Vector3] decode_prop_chunk[Type::Vector3/VariantType::Vector3]
 //@ kind: bounded
@@ -916,6 +925,7 @@ fn u3_vector3() {
 }
 
 //@ obligation: U3.Vector3.wire
+//@ cost: heavy
 //@ props: C04 C13
 //@ fns: decode_prop_chunk[Type::Vector3/VariantType::Vector3] decode_prop_chunk[Type::Color3/VariantType::Color3] decode_prop_chunk[Type::Vector2/VariantType::Vector2]
 //@ kind: bounded
@@ -1007,6 +1017,7 @@ fn general_m3() -> Matrix3 {
 }
 
 //@ obligation: U3.CFrame.enc
+//@ cost: heavy
 //@ props: C01 C03
 //@ fns: serialize_properties[Type::CFrame]
 //@ kind: bounded
@@ -1099,6 +1110,7 @@ fn cframe_wire(explicit0: bool) {
 }
 
 //@ obligation: U3.CFrame.wire.id
+//@ cost: heavy
 //@ props: C01 C04 C13
 //@ fns: decode_prop_chunk[Type::CFrame/VariantType::CFrame]
 //@ kind: bounded
@@ -1114,6 +1126,7 @@ fn u3_cframe_wire_id() {
 }
 
 //@ obligation: U3.CFrame.wire.explicit
+//@ cost: heavy
 //@ tier: thorough
 //@ props: C01 C04 C13
 //@ fns: decode_prop_chunk[Type::CFrame/VariantType::CFrame]
@@ -1168,6 +1181,7 @@ fn optionalcframe_enc(some_b: bool) {
 }
 
 //@ obligation: U3.OptionalCFrame.enc
+//@ cost: heavy
 //@ props: C01 C03
 //@ fns: serialize_properties[Type::OptionalCFrame]
 //@ kind: bounded
@@ -1186,6 +1200,7 @@ fn u3_optionalcframe_enc() {
 }
 
 //@ obligation: U3.OptionalCFrame.wire
+//@ cost: heavy
 //@ tier: thorough
 //@ props: C01 C04 C13
 //@ fns: decode_prop_chunk[Type::OptionalCFrame/VariantType::OptionalCFrame]
@@ -1274,6 +1289,7 @@ fn u3_enum() {
 }
 
 //@ obligation: U3.Int64
+//@ cost: heavy
 //@ props: C01 C03 C04 C13
 //@ fns: serialize_properties[Type::Int64] decode_prop_chunk[Type::Int64/VariantType::Int64] serialize_properties[Type::SecurityCapabilities] decode_prop_chunk[Type::SecurityCapabilities/VariantType::SecurityCapabilities]
 //@ kind: bounded
@@ -1407,6 +1423,7 @@ fn u3_numberrange() {
 }
 
 //@ obligation: U3.Rect
+//@ cost: heavy
 //@ props: C01 C03 C04 C13
 //@ fns: serialize_properties[Type::Rect] decode_prop_chunk[Type::Rect/VariantType::Rect]
 //@ kind: bounded
@@ -1533,6 +1550,7 @@ fn physprops_wire(total: usize) {
 }
 
 //@ obligation: U3.PhysicalProperties.wire
+//@ cost: heavy
 //@ props: C04 C13
 //@ fns: decode_prop_chunk[Type::PhysicalProperties/VariantType::PhysicalProperties]
 //@ kind: bounded
@@ -1592,6 +1610,7 @@ fn u3_color3uint8() {
 }
 
 //@ obligation: U3.UniqueId
+//@ cost: heavy
 //@ props: C01 C03 C04 C13 C17
 //@ fns: serialize_properties[Type::UniqueId] decode_prop_chunk[Type::UniqueId/VariantType::UniqueId]
 //@ kind: bounded
@@ -1660,6 +1679,7 @@ fn mkref(s: &str) -> Ref {
 }
 
 //@ obligation: U3.Ref
+//@ cost: heavy
 //@ props: C01 C03
 //@ fns: serialize_properties[Type::Ref] decode_prop_chunk[Type::Ref/VariantType::Ref]
 //@ kind: bounded
@@ -1857,6 +1877,7 @@ fn u3_numbersequence() {
 }
 
 //@ obligation: U3.ColorSequence
+//@ cost: heavy
 //@ tier: thorough
 //@ props: C01 C03 C04
 //@ fns: serialize_properties[Type::ColorSequence] decode_prop_chunk[Type::ColorSequence/VariantType::ColorSequence]
@@ -1909,6 +1930,7 @@ fn u3_colorsequence() {
 
 // ---------------------------------------------------------------- Font (bounded)
 //@ obligation: U3.Font
+//@ cost: heavy
 //@ props: C01 C03 C04
 //@ fns: serialize_properties[Type::Font] decode_prop_chunk[Type::Font/VariantType::Font]
 //@ kind: bounded
